@@ -268,16 +268,30 @@ def oracle(lines, timeout=3600):
     """Feed request lines to the extracted model/spec binary; returns the list of answer lines."""
     exe = os.path.join(BUILD, 'oracle')
     data = '\n'.join(lines) + '\n'
+    def limit():   # an answer never needs more; a runaway evaluation must not take the machine down
+        import resource
+        gb = int(os.environ.get('VERIF_ORACLE_GB', '6'))
+        resource.setrlimit(resource.RLIMIT_AS, (gb << 30, gb << 30))
     for attempt in range(3):
         try:
-            r = subprocess.run([exe], input=data, stdout=subprocess.PIPE, stderr=subprocess.PIPE, text=True, timeout=timeout)
+            r = subprocess.run([exe], input=data, stdout=subprocess.PIPE, stderr=subprocess.PIPE, text=True, timeout=timeout,
+                               preexec_fn=limit)
         except OSError as ex:      # e.g. ETXTBSY while a concurrent check re-links the binary
             r = subprocess.CompletedProcess([exe], 126, '', str(ex))
         if r.returncode == 0:
             break
         time.sleep(5)
     if r.returncode != 0:
-        raise RuntimeError('oracle binary failed (exit %s): %s' % (r.returncode, r.stderr[-500:]))
+        if len(lines) > 1:      # name the request that cannot be evaluated
+            half = len(lines) // 2
+            return oracle(lines[:half], timeout) + oracle(lines[half:], timeout)
+        try:
+            with open(os.path.join(BUILD, 'logs', 'oracle_fail.txt'), 'w') as f:
+                f.write(lines[0] + '\n')
+        except OSError:
+            pass
+        raise RuntimeError('oracle binary failed (exit %s) on request %s ... %s (full request in build/logs/oracle_fail.txt): %s'
+                           % (r.returncode, lines[0][:120], lines[0][-80:], r.stderr[-300:]))
     out = r.stdout.splitlines()
     if len(out) != len(lines):
         raise RuntimeError('oracle answered %d lines for %d requests' % (len(out), len(lines)))
